@@ -7,6 +7,7 @@ import (
 	"os"
 	"sort"
 	"strings"
+	"sync"
 	"time"
 
 	"github.com/mimiro-io/datahub/internal/server"
@@ -16,24 +17,26 @@ import (
 // completion on the fake clock, with faults placed inside the runs (C08, C10, C17, C18).
 
 type JobRun struct {
-	Sc      *Scenario
-	H       *Hub
-	M       *Model // model of the datasets written by the scenario (sources)
-	Stats   map[string]int64
-	trace   []byte
-	Start   time.Time
-	Pool    []string
-	Preds   []string
-	jobs    map[string]map[string]any
-	step    int
+	Sc    *Scenario
+	H     *Hub
+	M     *Model // model of the datasets written by the scenario (sources)
+	Stats map[string]int64
+	trace []byte
+	Start time.Time
+	Pool  []string
+	Preds []string
+	jobs  map[string]map[string]any
+	step  int
 	// per run fault state
-	runSpec   map[string]any
-	seenSink  int
-	seenPoint map[string]int
-	delivered [][]string // batches that reached the sink in this run (canonical ids)
-	toTransform [][]string
-	crashDirs []string
+	runSpec       map[string]any
+	seenSink      int
+	seenPoint     map[string]int
+	delivered     [][]string // batches that reached the sink in this run (canonical ids)
+	toTransform   [][]string
+	crashDirs     []string
 	lastRunFailed bool
+	recMu         sync.Mutex     // transform workers report concurrently
+	consumed      map[string]int // job id -> number of source feed entries delivered by successful incremental runs
 }
 
 func (r *JobRun) ev(format string, args ...any) {
@@ -76,6 +79,8 @@ func (r *JobRun) installFaults(jobID string, spec map[string]any) {
 	r.delivered = nil
 	r.toTransform = nil
 	hooks.onFaultOn = func(owner any, name string, subject any, hit int64) error {
+		r.recMu.Lock()
+		defer r.recMu.Unlock()
 		switch name {
 		case "sink.dataset":
 			r.seenSink++
@@ -100,6 +105,8 @@ func (r *JobRun) installFaults(jobID string, spec map[string]any) {
 		return nil
 	}
 	hooks.onPoint = func(owner any, name string, hit int64) {
+		r.recMu.Lock()
+		defer r.recMu.Unlock()
 		r.seenPoint[name]++
 		n := r.seenPoint[name]
 		if at, _ := spec["killPoint"].(string); at == name && intOf(spec, "killAt") == n {
@@ -227,7 +234,7 @@ func (r *JobRun) sinkFeedLen(h *Hub, cfg map[string]any) int {
 // RunJobScenario executes job-level sequential profiles.
 func RunJobScenario(sc *Scenario) (vd *Verdict) {
 	vd = &Verdict{Verdict: "ok", Property: sc.Property, Profile: sc.Profile, Seed: sc.Seed}
-	r := &JobRun{Sc: sc, M: NewModel(), Stats: map[string]int64{}, Start: time.Now(), jobs: map[string]map[string]any{}}
+	r := &JobRun{Sc: sc, M: NewModel(), Stats: map[string]int64{}, Start: time.Now(), jobs: map[string]map[string]any{}, consumed: map[string]int{}}
 	r.Pool, r.Preds = collectNames(sc)
 	h, err := OpenJobsHub(NewDir("jobhub"), sc.Knobs)
 	if err != nil {
@@ -359,9 +366,16 @@ func (r *JobRun) runOp(op *Op, i int) *Violation {
 	if res == nil {
 		return viol(prop, "job-run", "no-result", "job %s ended without a stored result", id)
 	}
+	if prop == "C10" {
+		if v := r.checkTransformDelivery(id, jobType, cfg, lastErr); v != nil {
+			return v
+		}
+	}
 	if lastErr == "" {
 		r.Stats["runs_ok"]++
-		if v := r.checkConverged(r.H, cfg, jobType, "after-successful-run"); v != nil {
+		if vr, _ := cfg["_variant"].(string); prop == "C10" && vr != "identity" {
+			// sink content is decided by the transform; delivery was checked above
+		} else if v := r.checkConverged(r.H, cfg, jobType, "after-successful-run"); v != nil {
 			if r.lastRunFailed {
 				v.Signature = strings.Replace(v.Signature, "after-successful-run", "after-failed-then-successful-run", 1)
 				v.Message = "the previous run failed or was killed; " + v.Message
@@ -381,7 +395,8 @@ func (r *JobRun) runOp(op *Op, i int) *Violation {
 			r.Stats["idempotence_checks"]++
 			// a fullsync job re-reads the source's whole change history, so value flips in that history are
 			// replayed into the sink feed by design; "changes nothing" is then judged on the latest view
-			if v := r.checkConverged(r.H, cfg, jobType, "after-rerun"); v != nil {
+			if vr, _ := cfg["_variant"].(string); prop == "C10" && vr != "identity" {
+			} else if v := r.checkConverged(r.H, cfg, jobType, "after-rerun"); v != nil {
 				return v
 			}
 			if n2 := r.sinkFeedLen(r.H, cfg); n2 != n1 && jobType != "fullsync" {
@@ -432,4 +447,97 @@ func (r *JobRun) verifyJobCrash(dir, id, jobType string, cfg map[string]any) *Vi
 func sha8(b []byte) []byte {
 	h := sha256.Sum256(b)
 	return h[:8]
+}
+
+// --- C10 -------------------------------------------------------------------------------------
+
+// transform variants, keyed by name; the JS source is built by jsTransform.
+func applyVariant(variant string, in []*CanonEnt) []string {
+	var out []string
+	for _, e := range in {
+		switch variant {
+		case "drop":
+			if d, _ := e.Props[ExS+"drop"].(bool); d {
+				continue
+			}
+			out = append(out, e.ID)
+		case "duplicate":
+			out = append(out, e.ID, e.ID+"-dup")
+		case "create":
+			out = append(out, e.ID, e.ID+"-new")
+		default:
+			out = append(out, e.ID)
+		}
+	}
+	return out
+}
+
+func flatten(b [][]string) []string {
+	var out []string
+	for _, x := range b {
+		out = append(out, x...)
+	}
+	return out
+}
+
+func sortedCopy(l []string) []string {
+	o := append([]string(nil), l...)
+	sort.Strings(o)
+	return o
+}
+
+// checkTransformDelivery: every source entity of the run reached the transform exactly once and
+// everything the transform returned reached the sink in source order.
+func (r *JobRun) checkTransformDelivery(id, jobType string, cfg map[string]any, lastErr string) *Violation {
+	src := sourceNames(cfg)[0]
+	d := r.M.DS[src]
+	variant, _ := cfg["_variant"].(string)
+	cell := fmt.Sprintf("n=%d,batch=%v,parallelism=%v,%s,%s", len(d.Versions), cfg["batchSize"], cfg["_parallelism"], jobType, variant)
+	if lastErr != "" {
+		return viol("C10", "transform-delivery", "run-failed", "job run failed in cell %s: %s", cell, lastErr)
+	}
+	from := 0
+	if jobType != "fullsync" {
+		from = r.consumed[id]
+	}
+	var expIn []*CanonEnt
+	var expIDs []string
+	for _, v := range d.Versions[from:] {
+		expIn = append(expIn, v.C)
+		expIDs = append(expIDs, v.C.ID)
+	}
+	gotIn := flatten(r.toTransform)
+	if strings.Join(sortedCopy(gotIn), ",") != strings.Join(sortedCopy(expIDs), ",") {
+		cls := "wrong-set"
+		if len(gotIn) < len(expIDs) {
+			cls = "entities-not-transformed"
+		} else if len(gotIn) > len(expIDs) {
+			cls = "entities-transformed-twice"
+		}
+		return viol("C10", "transform-delivery", "transform-input:"+cls, "cell %s: the source delivered %d entities %v, the transform received %d: %v", cell, len(expIDs), shortAll(expIDs), len(gotIn), shortAll(gotIn))
+	}
+	expOut := applyVariant(variant, expIn)
+	gotOut := flatten(r.delivered)
+	if strings.Join(gotOut, ",") != strings.Join(expOut, ",") {
+		cls := "wrong-order"
+		if len(gotOut) < len(expOut) {
+			cls = "entities-lost-after-transform"
+		} else if len(gotOut) > len(expOut) {
+			cls = "extra-entities"
+		}
+		return viol("C10", "transform-delivery", "sink-input:"+cls, "cell %s: the transform returned %v in this order, the sink received %v", cell, shortAll(expOut), shortAll(gotOut))
+	}
+	if jobType != "fullsync" {
+		r.consumed[id] = len(d.Versions)
+	}
+	r.Stats["transform_delivery_checks"]++
+	return nil
+}
+
+func shortAll(l []string) []string {
+	o := make([]string, len(l))
+	for i, x := range l {
+		o[i] = shortURI(x)
+	}
+	return o
 }
